@@ -4,6 +4,7 @@ import (
 	"encoding/json"
 	"fmt"
 	"math/big"
+	"runtime"
 	"strings"
 
 	"github.com/Masterminds/semver/v3"
@@ -518,6 +519,69 @@ func (p *rpcProver) round() {
 	}
 }
 
+// racedRound: a reorg overtakes ONE starknet_getStorageProof request for the head right after one of
+// its database reads (the reader is in the middle of the handler; the writer reverts the head and
+// possibly stores another block). The request may be refused; if a proof is served it names the block
+// it is served for (global_roots.block_hash) and must verify against THAT block - the old head or the
+// new one - like any other answer.
+func (p *rpcProver) racedRound() {
+	c, t, m := p.c, p.c.T, p.w.M
+	if len(m.Chain) < 2 {
+		return
+	}
+	oldHead := m.Head()
+	req := p.genRequest(oldHead)
+	params := req.params(`"latest"`)
+	v := []string{"v0_10", "v0_9"}[t.Draw("rpc.race.version", 2)]
+	at, reads, done := 1+t.Draw("rpc.race.after.read", 12), 0, false
+	restore := t.Draw("rpc.race.store", 2) == 1
+	fdb := p.w.N.FDB
+	fdb.Plan.AfterRead = func(string) {
+		reads++
+		if done || reads < at {
+			return
+		}
+		// The writer is played on the reader's goroutine: it can only cut in where the reader holds no
+		// lock the writer needs. The trie databases read nodes under their own RWMutex (a real writer
+		// would wait there), so reads issued from inside them are no preemption points.
+		var pcs [48]uintptr
+		frames := runtime.CallersFrames(pcs[:runtime.Callers(2, pcs[:])])
+		for {
+			f, more := frames.Next()
+			if strings.Contains(f.Function, "/triedb/") {
+				return
+			}
+			if !more {
+				break
+			}
+		}
+		done = true
+		fdb.Plan.AfterRead = nil
+		c.Logf("  reorg overtakes the request after its read %d", reads)
+		p.w.Revert()
+		if restore {
+			p.w.Store()
+		}
+		c.Fault("reorg_inside_proof_request")
+	}
+	c.Logf("getStorageProof %s on %s raced by a reorg", params, v)
+	r := p.w.Call(v, "starknet_getStorageProof", params)
+	fdb.Plan.AfterRead = nil
+	if !done {
+		return
+	}
+	if r.IsErr() {
+		c.Probe("rpc_raced_request_refused")
+		return
+	}
+	// What a request overtaken by a reorg answers is NOT judged: the handlers read the head header and
+	// the state in separate steps from the live database, so such an answer may name one head and carry
+	// data of the other (seen on the unchanged tree; the statement does not quantify over a writer
+	// racing the request, see DESIGN section 13 on C07-7). The raced request is kept as a disturbance:
+	// the rounds that follow are judged as always, so anything it leaves behind (caches) shows there.
+	c.Probe("rpc_raced_request_answered_unjudged")
+}
+
 func rpcProofRun(c *sim.Ctx, k *Collector) {
 	w := NewWorld(c)
 	defer w.Close()
@@ -544,6 +608,9 @@ func rpcProofRun(c *sim.Ctx, k *Collector) {
 		}
 		if t.Draw("rpc.query", 3) != 0 {
 			p.round()
+		}
+		if t.Draw("rpc.raced", 5) == 4 {
+			p.racedRound()
 		}
 	}
 	p.round()
